@@ -44,7 +44,7 @@ Step ==
                      /\ op'.res = SeqOf(e.res)
      \/ /\ e.a = "Quiescent"
         /\ D!Quiet
-        /\ e.rs = rs /\ e.rep = rep /\ e.clock = clock
+        /\ e.rs = rs /\ e.rep = rep /\ (rs # "NOT_INITIALIZED" => e.clock = clock)
         /\ (e.pending_known = 1 => SetOf(e.pending) = pending)
         /\ e.alive = (IF rs \in {"NOT_INITIALIZED", "ENDED"} THEN 0 ELSE 1)
         /\ IF e.stats # "" /\ rs = "ENDED" /\ ~premature
